@@ -60,6 +60,7 @@ MAX_CRASHES_PER_STREAM = 6
 # the geodesic routine opens an OpenMP region per matrix: two threads exercise it without 16 spinning ones
 RUN_ENV = {"OMP_NUM_THREADS": "2", "OMP_WAIT_POLICY": "passive"}
 SIG_F3 = "F3-connectivity-from-sample-0"
+SIG_TIES = "C03-tied-distances-order-dependent-k"
 
 
 # ----------------------------------------------------------------------------- running
@@ -845,6 +846,25 @@ def api_search(ctx, api, mexe, stats, rng, budget):
     return n
 
 
+def probe_tied_order(ctx, exe, stats):
+    """Proposed known finding: with tied distances the exact k-NN lists are not unique and the number of
+    neighbours depends on the order of the samples (cc_order_ties_refuted).  Probed only when the coordinator has
+    registered the signature in known_findings.json (then vlib prints KNOWN-FINDING); never a verdict otherwise."""
+    if not any(e.get("kind") == "finding" and e.get("signature") == SIG_TIES for e in ctx._known_db):
+        return 0
+    pts = [(0,), (1,), (2,), (3,), (6,)]
+    lines = [p_line("F", m, 1, 3, 1, q) for m in (0, 2) for q in (pts, list(reversed(pts)))]
+    res = run_impl(ctx, exe, lines)
+    for m, (a, b) in zip((0, 2), (res[0:2], res[2:4])):
+        ra, rb = (None if crashed(a) else parse_F(a)), (None if crashed(b) else parse_F(b))
+        if ra and rb and len(ra[0]) != len(rb[0]):
+            stats["tied_order_dependent"] += 1
+            ctx.violation({"kind": "points_pair", "dim": 1, "pts": pts, "k": 3, "method": m, "perm": [4, 3, 2, 1, 0]},
+                          "tied distances: %d neighbours for the samples 0,1,2,3,6, %d for the same samples supplied "
+                          "backwards (method %s)" % (len(ra[0]), len(rb[0]), METHODS[m]), signature=SIG_TIES)
+    return len(lines)
+
+
 def build_or_error(ctx, src, kw):
     try:
         return ctx.cpp(src, **kw), None
@@ -859,7 +879,7 @@ def new_stats():
     return {k: 0 for k in ("graphs", "strong", "first_not_strong", "spec_fail_graph", "graph_perms", "point_runs",
                            "raised", "spec_fail_points", "point_perms", "model_shipped_differs",
                            "geodesic_matrices", "graphs_ragged", "api_runs", "api_k_graph_not_strong",
-                           "api_violations", "api_other_failures", "recursion_replays", "edge_set_comparisons",
+                           "api_violations", "api_other_failures", "tied_order_dependent", "recursion_replays", "edge_set_comparisons",
                            "method_set_comparisons")}
 
 
@@ -1002,6 +1022,7 @@ def run(ctx):
         budget = 60000
     n += search_small_sets(ctx, exe, mexe, stats, budget, rng)
 
+    n += probe_tied_order(ctx, exe, stats)
     ctx.note("t=%.0fs after small lattice sets" % ctx.elapsed())
     # ---- a few malformed graphs, one process each: recorded, never a verdict
     for rows in ([[1], [5]], [[1, 1], [0]], [[2], [0], [7]]):
@@ -1056,6 +1077,9 @@ def finish(ctx, n, stats, hist, small, rnd, bases):
         histogram={"generators": hist, "stats": stats},
         trusted_base=TRUSTED,
         assumptions=["samples are distinct (coincident samples: neighbour-search defects F1/F2, property C02)",
+                     "order / method independence is claimed and compared on tie-free data only: with tied distances the "
+                     "exact k-NN lists are not unique and the number of neighbours depends on the order "
+                     "(cc_order_ties_refuted; proposed known finding " + SIG_TIES + ")",
                      "point sets of the model comparison are tie-free so that the exact k-NN graph is unique",
                      "N >= 1; requested k >= 1 (the library validates 3 <= k)",
                      "neighbour lists handed to is_connected are uniform and well-formed (what every search returns)"],
